@@ -183,6 +183,27 @@ def int_inverse(S):
     return [[int(x) for x in r] for r in inv]
 
 
+# ---- object-state guard: queries must not change the crystal ------------------------------------------
+def _deep(v):
+    if isinstance(v, np.ndarray): return ("arr", v.shape, v.dtype.str, v.tobytes())
+    if isinstance(v, (list, tuple)): return tuple(_deep(x) for x in v)
+    if isinstance(v, (frozenset, set)): return ("set", len(v))
+    if isinstance(v, (int, float, complex, str, bool, type(None), np.floating, np.integer)): return ("val", repr(v))
+    return ("obj", type(v).__name__)
+
+
+def state_snapshot(crys):
+    """attribute names and a digest of every scalar / array / list attribute of a Crystal object"""
+    return {k: _deep(v) for k, v in vars(crys).items()}
+
+
+def state_diff(before, after):
+    """human-readable list of attributes added / removed / changed between two snapshots"""
+    out = ["+" + k for k in after if k not in before] + ["-" + k for k in before if k not in after]
+    out += ["~" + k for k in before if k in after and before[k] != after[k]]
+    return out
+
+
 # ---- Coq literals -------------------------------------------------------------------------------
 def cv3(v): return "(%s, %s, %s)" % (coq_Z(v[0]), coq_Z(v[1]), coq_Z(v[2]))
 
